@@ -1492,7 +1492,7 @@ impl SourceLocation for RedirectList {
 impl Display for RedirectList {
     fn fmt(&self, f: &mut std::fmt::Formatter<'_>) -> std::fmt::Result {
         for item in &self.0 {
-            write!(f, "{item}")?;
+            write!(f, " {item}")?;
         }
         Ok(())
     }
